@@ -251,6 +251,7 @@ type tcpObs struct {
 	errs          [2]error // Result errors, when the relay returned
 	bClosedEarly  bool     // end B was closed by the rate-limited writer's Close (when A->B finished)
 	returnedEarly bool
+	background    bool
 }
 
 var burstMsg = regexp.MustCompile(`Wait\(n=(\d+)\) exceeds limiter's burst`)
@@ -258,8 +259,12 @@ var burstMsg = regexp.MustCompile(`Wait\(n=(\d+)\) exceeds limiter's burst`)
 // runTCP runs the case; failures of bandwidth-limited runs get the key of their root cause
 // in the rate-limiting transformer (internal/stream/transform), which is what the
 // target-side relay (client.handleTCPTargetTunnel) is configured with.
-func runTCP(c *TCPCase) (*failure, string, bool, string) {
-	var obs tcpObs
+func runTCP(c *TCPCase) (*failure, string, bool, string) { return runTCPOpt(c, false) }
+
+// runTCPOpt: background = the case runs concurrently with other cases of the binary (the
+// goroutine-leak diff, which counts relay goroutines process-wide, is then meaningless).
+func runTCPOpt(c *TCPCase, background bool) (*failure, string, bool, string) {
+	obs := tcpObs{background: background}
 	f, class, nt, sig := runTCPInner(c, &obs)
 	if f == nil || c.Limit <= 0 {
 		return f, class, nt, sig
@@ -267,6 +272,10 @@ func runTCP(c *TCPCase) (*failure, string, bool, string) {
 	for _, e := range obs.errs {
 		if e == nil {
 			continue
+		}
+		if strings.Contains(e.Error(), "would exceed context deadline") {
+			return &failure{key: "C12/tcp/bandwidth-limit/limiter-wait-exceeds-its-own-timeout",
+				detail: fmt.Sprintf("BandwidthLimit=%d: the limiter refused to wait for a chunk (%v): the direction ended there and the rest of the stream was dropped - the relay is supposed to be slow, not lossy [%s: %s]", c.Limit, e, f.key, f.detail)}, "", false, ""
 		}
 		if mm := burstMsg.FindStringSubmatch(e.Error()); mm != nil {
 			n, _ := strconv.ParseInt(mm[1], 10, 64)
@@ -369,6 +378,14 @@ func runTCPInner(c *TCPCase, obs *tcpObs) (fail *failure, class string, nt bool,
 
 	m = newTCPModel(c)
 	B := bound()
+	if c.Limit > 0 {
+		// a limited run that moves more than the limiter's initial bucket takes real time
+		total := 0
+		for _, st := range c.Steps {
+			total += st.N + st.M
+		}
+		B += time.Duration(1.5 * float64(total) / float64(c.Limit) * float64(time.Second))
+	}
 	halfCloseThenReverse := 0 // bytes delivered in the reverse direction after a propagated half-close
 	var halfClosedDir [2]bool // direction ended by a clean half-close/close while the reverse was alive
 	concurrent := false
@@ -753,8 +770,10 @@ func runTCPInner(c *TCPCase, obs *tcpObs) (fail *failure, class string, nt bool,
 	if m.firstFault >= 0 && errs[m.firstFault] == nil && !ambiguous {
 		return failf("C12/tcp/fault-not-reported/"+m.firstKind, "direction %s failed (%s) but its Result error is nil", dirName(m.firstFault), m.firstKind), "", false, ""
 	}
-	if f := leakAfter(baseline); f != nil {
-		return f, "", false, ""
+	if !obs.background {
+		if f := leakAfter(baseline); f != nil {
+			return f, "", false, ""
+		}
 	}
 
 	// --- classification
